@@ -90,25 +90,28 @@ theorem agree_seq {kind vc} (hk : seqKinds.contains kind = true) (h : AgreeD E c
   | zero => cases hn
   | succ n =>
     have core : (∀ y ∈ x.payload, y ∈ xs) →
-        exMapM (intoDynF E classes enums n) x.payload = exMapM (intoC E dyn vc) x.payload := fun hpay =>
-      exMapM_congr _ (fun y hy => (h y (Nat.lt_trans (Val.depth_payload hy) hx) (helem y (hpay y hy))).2 n
-        (Nat.lt_of_lt_of_le (Val.depth_payload hy) (Nat.le_of_lt_succ hn)))
+        exMapM (dynElem E (intoDynF E classes enums n)) x.payload =
+          exMapM (anyOr E dyn vc (intoC E dyn vc)) x.payload := fun hpay =>
+      exMapM_congr _ (fun y hy => by
+        obtain ⟨s, a⟩ := h y (Nat.lt_trans (Val.depth_payload hy) hx) (helem y (hpay y hy))
+        rw [dynElem_notSub s, anyOr_notSub vc s]
+        exact a n (Nat.lt_of_lt_of_le (Val.depth_payload hy) (Nat.le_of_lt_succ hn)))
     rcases seqCtor_cases hk hctor with ⟨rfl, rfl⟩ | ⟨rfl, rfl⟩ | ⟨rfl, rfl⟩ | ⟨rfl, rfl, _⟩ | ⟨rfl, rfl, _⟩
     · have := core (fun y hy => hy)
       simp only [Val.payload] at this
-      simp [intoDynF, intoC, this]
+      simp [intoDynF, intoC_seq_list, this]
     · have := core (fun y hy => hy)
       simp only [Val.payload] at this
-      simp [intoDynF, intoC, this]
+      simp [intoDynF, intoC_seq_list, this]
     · have := core (fun y hy => hy)
       simp only [Val.payload] at this
-      simp [intoDynF, intoC, this]
+      simp [intoDynF, intoC_seq_list, this]
     · have := core (fun y hy => Val.dedupPy_mem hy)
       simp only [Val.payload] at this
-      simp [intoDynF, intoC, this]
+      simp [intoDynF, intoC_seq_list, this]
     · have := core (fun y hy => Val.dedupPy_mem hy)
       simp only [Val.payload] at this
-      simp [intoDynF, intoC, this]
+      simp [intoDynF, intoC_seq_list, this]
 
 def AgreeDs (E : Ext) (classes : List (String × Conv)) (enums : List (String × List Val))
     (dyn : Val → Except Exc Val) (N : Nat) (cs : List Conv) : Prop :=
@@ -117,19 +120,20 @@ def AgreeDs (E : Ext) (classes : List (String × Conv)) (enums : List (String ×
 theorem agree_zip (n : Nat) : ∀ (cs : List Conv) (vs xs : List Val),
     AgreeDs E classes enums dyn N cs → (∀ u ∈ vs, u.isData = true) → vs.length = cs.length →
     zipMO (tryCs E cs) vs = .ok xs → (∀ y ∈ xs, y.depth < N ∧ y.depth < n) →
-    exMapM (intoDynF E classes enums n) xs = exZip (intoCs E dyn cs) xs
+    exMapM (dynElem E (intoDynF E classes enums n)) xs = exZip (intoCs E dyn cs) xs
   | [], vs, xs, _, _, _, hz, _ => by
     simp only [tryCs, zipMO] at hz; cases hz; simp only [intoCs, exZip, exMapM]
   | c :: cs, [], xs, _, _, hl, _, _ => by simp at hl
   | c :: cs, u :: vs, xs, hg, hv, hl, hz, hd => by
     simp only [tryCs] at hz
     obtain ⟨y, ys, hy, hys, rfl⟩ := zipMO_cons_inv hz
-    have h1 := (hg c (List.mem_cons_self ..) y (hd y (List.mem_cons_self ..)).1
-      ⟨u, hv u (List.mem_cons_self ..), hy⟩).2 n (hd y (List.mem_cons_self ..)).2
+    obtain ⟨s1, h1⟩ := hg c (List.mem_cons_self ..) y (hd y (List.mem_cons_self ..)).1
+      ⟨u, hv u (List.mem_cons_self ..), hy⟩
+    have h1 := h1 n (hd y (List.mem_cons_self ..)).2
     have h2 := agree_zip n cs vs ys (fun c' hc' => hg c' (List.mem_cons_of_mem _ hc'))
       (fun u' hu' => hv u' (List.mem_cons_of_mem _ hu')) (by simpa using hl) hys
       (fun y' hy' => hd y' (List.mem_cons_of_mem _ hy'))
-    simp only [intoCs, exZip, exMapM, h1, h2]
+    simp only [intoCs, exZip, exMapM, dynElem_notSub s1, h1, h2]
 
 theorem agree_tuple {cs} (h : AgreeDs E classes enums dyn N cs) :
     AgreeD E classes enums dyn N (.tuple cs) := by
